@@ -14,20 +14,21 @@ import (
 // dbOptions draws one session's option set. live=false disables the background compactor (cycles are then
 // placed by the program through the tag-guarded helpers).
 type dbOptSet struct {
-	Memstore   uint64
-	Threshold  int
-	MaxSize    uint64
-	Ratio      float32
-	ReadBuf    uint64
-	WriteBuf   uint64
-	Live       bool
-	IntervalMs int
-	Async      bool
+	Memstore    uint64
+	Threshold   int
+	MaxSize     uint64
+	Ratio       float32
+	ReadBuf     uint64
+	WriteBuf    uint64
+	Live        bool
+	IntervalMs  int
+	Async       bool
+	DirectIOWAL bool
 }
 
 func (o dbOptSet) String() string {
-	return fmt.Sprintf("memstore=%d threshold=%d maxSize=%d ratio=%.1f rbuf=%d wbuf=%d live=%v interval=%dms async=%v",
-		o.Memstore, o.Threshold, o.MaxSize, o.Ratio, o.ReadBuf, o.WriteBuf, o.Live, o.IntervalMs, o.Async)
+	return fmt.Sprintf("memstore=%d threshold=%d maxSize=%d ratio=%.1f rbuf=%d wbuf=%d live=%v interval=%dms async=%v directIOWAL=%v",
+		o.Memstore, o.Threshold, o.MaxSize, o.Ratio, o.ReadBuf, o.WriteBuf, o.Live, o.IntervalMs, o.Async, o.DirectIOWAL)
 }
 
 func drawDBOpts(r *rand.Rand, live bool) dbOptSet {
@@ -62,6 +63,9 @@ func (o dbOptSet) Options() []simpledb.ExtraOption {
 	}
 	if o.Async {
 		opts = append(opts, simpledb.EnableAsyncWAL())
+	}
+	if o.DirectIOWAL {
+		opts = append(opts, simpledb.EnableDirectIOWAL())
 	}
 	return opts
 }
